@@ -91,10 +91,14 @@ def pick_ls(rnd, cfg):
 def pick_lsm(rnd, cfg):
     r = rnd.random()
     if r < 0.5:
-        w = G.fill(G.ARM_LSM[0][1], rnd, fixed={'c': rnd.choice(G.COND_BIAS)})
+        # one in six: the S-bit forms (STM / LDM user registers, LDM exception return)
+        name, pat = G.ARM_LSM[1] if rnd.random() < 0.17 else G.ARM_LSM[0]
+        w = G.fill(pat, rnd, fixed={'c': rnd.choice(G.COND_BIAS)})
         if rnd.random() < 0.5:
             w = (w & ~0xFFFF) | list_shape(rnd, 16)
-        return False, w, 'lsm'
+        if name == 'lsm_s' and rnd.random() < 0.7:
+            w &= ~(1 << 15)                                   # mostly the user-register forms (no PC in the list)
+        return False, w, name
     if r < 0.75:
         base = rnd.choice([0xC000, 0xC800, 0xB400, 0xBC00])
         return True, base | (rnd.getrandbits(3) << 8 if base < 0xB000 else rnd.getrandbits(1) << 8) | list_shape(rnd, 8), 't16'
@@ -138,8 +142,24 @@ def pick_br(rnd, cfg):
         if k < 0.85:
             return True, 0x4700 | (rnd.getrandbits(1) << 7) | (rnd.choice(G.REG_BIAS) << 3), 'bx_blx'
         return True, 0x4400 | 0x87 | (rnd.choice(G.REG_BIAS) << 3) if rnd.random() < 0.5 else 0x4687 | (rnd.choice(G.REG_BIAS) << 3), 'add_mov_pc'
-    name, pat = rnd.choice(G.T32_BR + [('t32_tb', '111010001101nnnn11110000000hmmmm')])
-    return True, G.fill(pat, rnd), name
+    if r < 0.88:
+        name, pat = rnd.choice(G.T32_BR + [('t32_tb', '111010001101nnnn11110000000hmmmm')])
+        return True, G.fill(pat, rnd), name
+    # loads into the PC (interworking by LoadWritePC): LDR pc (immediate / register / literal), POP / LDM with pc
+    k = rnd.randrange(7)
+    if k == 0:
+        return False, G.fill('cccc0101u0011nnn1111iiiiiiiiiiii', rnd, fixed={'c': rnd.choice(G.COND_BIAS), 'i': rnd.randrange(0, 64) * 4}), 'ldr_pc_imm'
+    if k == 1:
+        return False, G.fill('cccc0111u0011nnn111100000000mmmm', rnd, fixed={'c': rnd.choice(G.COND_BIAS)}), 'ldr_pc_reg'
+    if k == 2:
+        return False, G.fill('cccc100010w1nnnn1rrrrrrrrrrrrrrr', rnd, fixed={'c': rnd.choice(G.COND_BIAS), 'r': list_shape(rnd, 15) & 0x1FFF}), 'ldm_pc'
+    if k == 3:
+        return True, 0xBD00 | rnd.getrandbits(8), 'pop_pc_t1'
+    if k == 4:
+        return True, G.fill('111110001101nnnn1111iiiiiiiiiiii', rnd, fixed={'i': rnd.randrange(0, 64) * 4}), 'ldr_pc_t3'
+    if k == 5:
+        return True, G.fill('111110000101nnnn1111000000iimmmm', rnd), 'ldr_pc_reg_t2'
+    return True, G.fill('1110100010w1nnnn1m0rrrrrrrrrrrrr', rnd, fixed={'m': 0}), 'ldm_pc_t2'
 
 
 def pick_media(rnd, cfg):
